@@ -23,7 +23,7 @@ P = {
         {'name': 'burns', 'n': {'quick': 60, 'thorough': 2000}, 'shrink_field': 'ops', 'batch': 500},
     ],
     'coq_header': 'From HV Require Import Dao.LedgerModel Bank.BurnModel.\nFrom Coq Require Import ZArith NArith List.\nImport ListNotations.',
-    'lists': {'cases': {'type': 'list event', 'check': 'mismatches', 'shard': 8}},
+    'lists': {'cases': {'type': 'hcase', 'check': 'mismatches', 'shard': 8}},
     'search': {'rounds': 4, 'n': 300},
     'rule': 'a case is a history of 35-60 operations on a forked real app: fund 12 users, set staking/slashing/gov params, create 2-4 '
             'validators, delegate, then a random mix of delegate / undelegate / redelegate / staking end-block / Slash (fractions 0..1, '
